@@ -2435,6 +2435,17 @@ pub fn compile<I: BufRead, O: Write>(
         let mut s = i.splitn(2, '=');
         let def = s.next().unwrap();
         let value = s.next().unwrap_or("1");
+        // The name becomes a regular expression: it must be a plain identifier
+        let mut chars = def.chars();
+        let ok = match chars.next() {
+            Some(c) => (c.is_ascii_alphabetic() || c == '_') && chars.all(|c| c.is_ascii_alphanumeric() || c == '_'),
+            None => false,
+        };
+        if !ok {
+            return Err(Error::Configuration {
+                error: format!("Bad macro name in -D{}", i),
+            });
+        }
         context.define(def, value);
     }
 
